@@ -236,7 +236,7 @@ def uniquify(names, parents, ignorecase_unique=True):
     out = []
     for idx, name in enumerate(names):
         key_parent = parents[idx]
-        text = str(name["int"]) if isinstance(name, dict) else name
+        text = rr.name_text(name)
         bucket = seen.setdefault(key_parent, set())
         cand, k = text, 0
         while cand.lower() in bucket:
@@ -255,7 +255,7 @@ def random_cases(draw):
     sep = draw(st.sampled_from(SEPS))
     pathattr = draw(st.sampled_from(["name", "name", "id"]))
     ic = draw(st.booleans())
-    names = [draw(st.one_of(name_strategy(sep), name_strategy(sep), st.integers(0, 12).map(lambda i: {"int": i}))) for _ in range(size)]
+    names = [draw(st.one_of(name_strategy(sep), name_strategy(sep), st.integers(0, 12).map(lambda i: {"int": i}), name_strategy(sep).map(lambda t: {"tag": t}))) for _ in range(size)]
     unique = draw(st.integers(0, 9)) < 7
     if unique:
         names = uniquify(names, parents)
@@ -271,7 +271,7 @@ def random_cases(draw):
                 if len(names[i]) != len(base) or names[i] in (".", ".."):
                     names[i] = base
             last_sibling[parents[i]] = i
-    texts = [str(n["int"]) if isinstance(n, dict) else n for n in names]
+    texts = [rr.name_text(n) for n in names]
     comp = st.one_of(st.sampled_from(texts), st.sampled_from(texts), st.sampled_from(texts).map(lambda s: s.swapcase()), st.sampled_from(["..", "..", ".", "", "zz", "a"]), name_strategy(sep))
     paths = []
     for _ in range(draw(st.integers(1, 8))):
